@@ -97,6 +97,8 @@ package keystore
 //@   requires lock-entry: kmcLocked
 //@ func (*AddrManager).updateManagedAddress
 //@   requires lock-entry: kmcLocked && !amLocked && !held[addr(a.mu)]
+//@ func (*AddrManager).setManagedAddresses
+//@   requires lock-entry: kmcLocked && !amLocked && !held[addr(a.mu)]
 //@ func (*AddrManager).changeRemark
 //@   requires lock-entry: kmcLocked
 //@ func (*AddrManager).setRemark
